@@ -12,25 +12,29 @@ NOTE = ("trusted: rustc's type-checked MIR (mir_built) as dumped by the slfacts 
 CLAIMED = {
     "C01": ("MIR path-order (must-pass-through dominance), fsync pairing and who-may-call rules",
             "order of log sync / segment fsync / atomic manifest replace / commit marker / publish / truncate on every path; "
-            "fsync pairing of written files; who may write the manifest, delete files or touch the log", "5/C01"),
+            "fsync pairing of written files; a shortened log is synced before success; who may write the manifest, delete files or "
+            "touch the log", "5/C01"),
     "C02": ("sibling-table agreement (record codes, CRC input), loop-exit guard, lock-region and value-flow rules over MIR",
             "writer/reader agreement on the log record table and CRC input; replay leaves its loop at the first bad record; queue "
             "restored under the writer lock, cleared on a commit marker, discarded by rollback, synced on Drop; log cut to its "
-            "intact prefix before appends", "5/C02"),
+            "intact prefix before appends; every set_len is followed by sync_all on all success paths", "5/C02"),
     "C03": ("MIR reachability from the publish point, outcome-arm dominance, error-disposition enumeration",
             "no error return after publish; publish only on the success arm of store+marker+sync; error arm never deletes files "
             "the on-disk manifest may reference; queue extended only after the log append; every fallible storage call in the "
-            "write path propagated or listed", "5/C03"),
+            "write path propagated or listed; no write of the handle's cached state (live_docs, live_generation, queue clear) can "
+            "reach an error return", "5/C03"),
     "C04": ("who-may-call over the call graph and is_deleted guard dominance",
             "only commit/compact can publish or write segment/manifest files; every document-enumerating routine skips deleted "
-            "documents; rollback discards", "5/C04"),
+            "documents; rollback discards; the staleness token of the cached id map is fresh and monotone (= C05 R05.c/d)", "5/C04"),
     "C05": ("lock-region must-analysis over MIR CFGs",
             "every shared-state effect of every writer entry point lies inside the writer_lock region on every path; cached live-docs "
             "reuse is guarded by the generation comparison, and every published segment gets a generation above all manifest "
-            "generations (1 + max over all segments, no subset)", "5/C05"),
+            "generations (1 + max over all segments, no subset), and the segment list is only ever shortened by installing a freshly "
+            "written segment, after its generation was computed (the maximum generation never decreases or repeats)", "5/C05"),
     "C06": ("lock-region pairing and call-graph who-may-call",
             "reader holds the manifest read lock from list copy to last file open while compaction unlinks under the write lock; an "
-            "open reader never returns to path-addressed storage", "5/C06"),
+            "open reader never returns to path-addressed storage; every backend's remove only unlinks (never locks or mutates a "
+            "file's byte buffer)", "5/C06"),
     "C07": ("control-dependence / value-flow of the candidate-source decision on the query matcher; decision-table extraction by path enumeration; influence (data + control) slice",
             "TWO clauses only: (candidate completeness) the choice of the postings-driven candidate source must consult the query "
             "matcher; today it does not (recorded known finding); (bool default) the default minimum_should_match is extracted as a "
@@ -42,12 +46,19 @@ CLAIMED = {
             "per document. Which documents pass a filter tree is runtime and not decided", "5/C08"),
     "C09": ("ADT-table check of the score algebra, value-flow of tie breakers to their validator, control-dependence of the pruning threshold on the hook parameters",
             "score expression type has only sub-additive nodes with validated tie breakers; the pruning threshold is finite only when "
-            "neither a collector nor a score-adjust hook is attached; collection is not gated by the heap (bound soundness itself, "
-            "incl. BMW block bounds, is not decided)", "5/C09"),
+            "neither a collector nor a score-adjust hook is attached; collection is not gated by the heap; the length floor of the "
+            "upper bounds is the positive minimum of the WHOLE length column with the scorer's own fallback (the remaining bound "
+            "arithmetic, incl. BMW block maxima, is not decided)", "5/C09"),
+    "C10": ("decision-table extraction of the comparators by path enumeration (values touched only through comparisons), argument-order and provenance flow",
+            "the finite tables the ordering is built from: missing values last in both orders; Asc keeps / Desc flips / Equal stays in "
+            "the three direction helpers with (a, b) argument order; ties broken by segment then document as (self, other); Asc "
+            "selects the minimum and Desc the maximum of multi-valued fields; ScoredTerm.k1/b come from IndexOptions.bm25_k1/b and "
+            "reach bm25() in the right positions. Numerical score values and the order of concrete hit lists are NOT decided", "5/C10"),
     "C11": ("dominance of rejecting comparisons over success returns in the cursor decoder; hash-input coverage; argument provenance",
             "every successful cursor decode is dominated by generation / plan-hash / version tests that reject on inequality; the plan "
             "hash covers kind, name and (for every kind) order; search passes its own generation, errors on an unseen cursor and emits next_cursor "
-            "only past the limit from the last hit's key (completeness / duplicate-freedom not decided)", "5/C11"),
+            "only past the limit from the last hit's key; bounded top-k heaps replace by the entry type's total order, never by a "
+            "projection (completeness / duplicate-freedom otherwise not decided)", "5/C11"),
     "C12": ("value-flow from request thresholds to cut-off operations in per-segment finishers and merge arms; sibling accessor agreement",
             "no truncate/filter/retain/take by size/min_doc_count/max_doc_count before all segments are merged (8 sites recorded as known "
             "findings); numeric collectors read i64 and f64 columns alike; every aggregation node that is finished is fed every "
@@ -103,7 +114,6 @@ CLAIMED = {
 }
 
 NA = {
-    "C10": "ordering and BM25 values are numerical results over runtime data; no sound static argument in reach",
     "C18": "group representatives and inner-hit windows are ordering properties of runtime hit lists",
     "C19": "'only the first window_size hits change' is an index-range property of runtime vectors",
     "C22": "determinism and doc-frequency equality of suggestions depend on dictionary contents and a runtime scan cap",
